@@ -774,10 +774,11 @@ fn remove_file(path: impl AsRef<Path>) -> Result<(), ChunkCacheError> {
     Ok(())
 }
 
-/// removes a directory but disregards a "NotFound" error if the directory is already gone
+/// removes a directory but disregards a "NotFound" error if the directory is already gone, and a
+/// "DirectoryNotEmpty" error if a concurrent put has placed a file in it since it was found empty
 fn remove_dir(path: impl AsRef<Path>) -> Result<(), ChunkCacheError> {
     if let Err(e) = std::fs::remove_dir(path) {
-        if e.kind() != ErrorKind::NotFound {
+        if e.kind() != ErrorKind::NotFound && e.kind() != ErrorKind::DirectoryNotEmpty {
             return Err(e.into());
         }
     }
